@@ -60,10 +60,10 @@ CHECKS = {
         note=NOTE + " C02 specifically: the theorems are about the component models and the Space/Pt model; that a real "
              "simulation's step is a history of component calls, gymnasium's `contains`, and the packaged example "
              "simulations' own glue and observers are monitored at run time, not proved; how a Python value is read as a "
-             "point (harness/c02sims.py dump_point) is harness code; open finding C02-E1 (the comms_blocking tutorial "
-             "example's broadcast observation) is reported as a KNOWN-FINDING line; C02-N1 (communication wrapper kept "
-             "null points unchanged) and C02-N2 (ravel / flatten wrappers converted null points only if truthy) were "
-             "found by this check and repaired in /repo (ad51457, 7d54d86)."),
+             "point (harness/c02sims.py dump_point) is harness code; no open finding: C02-E1 (the comms_blocking example's "
+             "broadcast observation, dba409b), C02-N1 (communication wrapper kept null points unchanged, ad51457), "
+             "C02-N2 (ravel / flatten wrappers converted null points only if truthy, 7d54d86) and C02-A1 (selective "
+             "attack given as a nested list, ecfc6a7) were found by this check and repaired in /repo."),
     "C07": dict(
         text="Lean 4 theorems C07_fair_turns_and_progress / C07_every_call_returns / turnSearch_total: for every "
              "simulation, manager and history the model reports exactly the agents the property prescribes "
